@@ -1483,3 +1483,48 @@ func checkUnclippedPiecesAreSnapped(ctx *Ctx, r *Report) {
 	r.check("W19", "Box2.lineIntersect|pieces-inside-the-box-are-snapped-too", fn.Pos(), bad == "" && n > 0, fmt.Sprintf("%d segments inside the unit box, an end within tolerance of each edge in turn;%s", n, bad))
 	r.floor("W19", 1)
 }
+
+// ---------------------------------------------------------------- W20: the polygon is the one given
+
+func init() {
+	prev := registry["C04"].run
+	registry["C04"] = propDef{run: func(ctx *Ctx, r *Report, tier string) {
+		prev(ctx, r, tier)
+		checkPolygonKeepsItsVertices(ctx, r)
+	}}
+}
+
+// checkPolygonKeepsItsVertices (W20): Polygon2D measures distance to the polygon it is given:
+// the vertex list that reaches the segment builder (the function returning []*Line2 that the
+// mesh constructor is fed from) is the caller's slice, not a filtered copy. Vertices dropped by
+// an absolute "collinear" or "duplicate" test change the outline of small-scale polygons (a
+// fillet of short edges becomes a chamfer), which the brute-force path built from the same
+// filtered list cannot reveal either.
+func checkPolygonKeepsItsVertices(ctx *Ctx, r *Report) {
+	fn := ctx.ssaFunc("sdf", "Polygon2D")
+	if fn == nil || len(fn.Params) == 0 {
+		r.undecided("W20", "Polygon2D", 0, "not found")
+		return
+	}
+	n := 0
+	allInstrs(fn, func(_ *ssa.BasicBlock, ins ssa.Instruction) {
+		c, ok := ins.(*ssa.Call)
+		if !ok {
+			return
+		}
+		f := c.Common().StaticCallee()
+		if f == nil || !inModule(f) || len(c.Common().Args) == 0 {
+			return
+		}
+		// a segment builder: takes a vertex slice of the parameter's type, returns line segments
+		if !types.Identical(c.Common().Args[0].Type(), fn.Params[0].Type()) || f.Signature.Results().Len() == 0 || !strings.Contains(f.Signature.Results().At(0).Type().String(), "Line2") {
+			return
+		}
+		n++
+		r.check("W20", fmt.Sprintf("Polygon2D|%s-gets-the-caller's-vertices", f.Name()), c.Pos(), c.Common().Args[0] == ssa.Value(fn.Params[0]),
+			"the vertex list turned into segments is the parameter itself")
+	})
+	if n == 0 {
+		r.check("W20", "Polygon2D|segment-builder", fn.Pos(), true, "no segment builder called with a vertex slice (rule not applicable to this shape)")
+	}
+}
